@@ -712,7 +712,12 @@ impl<TStdlib: Stdlib, TStdIn: Input, TStdOut: Printer, TLpt1: Printer>
 
     fn verif_before_instruction(&mut self, pc: usize) -> bool {
         let depths = self.verif_depths();
-        if super::verif::before_instruction(&mut self.verif, pc, depths) {
+        let registers = if self.verif.options.trace_registers {
+            Some(self.registers().verif_all())
+        } else {
+            None
+        };
+        if super::verif::before_instruction(&mut self.verif, pc, depths, registers) {
             return true;
         }
         if super::verif::wants_dump(&self.verif, pc) {
